@@ -9,6 +9,7 @@ import LolHtml.Lane.Enc
 import LolHtml.Lane.Esc
 import LolHtml.Lane.CApi
 import LolHtml.Lane.Sel
+import LolHtml.Lane.Attrs
 
 namespace LolHtml.Lane
 
@@ -24,7 +25,8 @@ def registry : List (String × (String → String)) :=
     ("enc", Enc.run),
     ("esc", Esc.run),
     ("capi", CApi.run),
-    ("sel", Sel.run) ]
+    ("sel", Sel.run),
+    ("attrs", Attrs.run) ]
 
 def find (name : String) : Option (String → String) :=
   (registry.find? (·.1 == name)).map (·.2)
